@@ -42,6 +42,9 @@ def gc_jobs(tier, prop):
                          case="capacity %d" % ns, replay="C01_tls.c" if name == "mark" else "C06_gc.c",
                          assumptions=["destruct/dealloc on a managed object are recording sinks here (their contracts: C19 dealloc, C05 element destructors)",
                                       "calloc/realloc/free: typed pool model of the slot array and the pending list"]))
+    if prop == "C06":
+        J.append(Job("C06.GC.rem_ptr_empty", "C06", "K3", "GC/k3.c", "h_rem_ptr_empty", ["GC_Rem_Ptr"], link=L, defines=["NS=1"], replace_calls=["exception_throw:cv_throw"], unwind=6,
+                     group="GC.rem_ptr", timeout=600, replay="C06_gc.c", case="registry of capacity 0 with a pending list"))
     if prop == "C17":
         for (o, n) in ([(3, 5), (5, 11), (5, 1), (1, 5)] if tier == "thorough" else [(3, 5), (1, 5)]):
             J.append(Job("C17.GC.rehash.%dto%d" % (o, n), "C17", "K3", "GC/k3.c", "h_rehash", ["GC_Rehash"], link=L, defines=["NS=%d" % o, "NEWSIZE=%d" % n],
